@@ -22,7 +22,7 @@ CONSTANT Chunk
 VARIABLE l
 
 StaticDevs  == {"DevVarUsageUnchecked", "DevVarTypeIgnored", "DevArgDefaultLostOnOmittedVar", "DevOmittedVarSkipsArgValidation",
-                "DevEnumStringLiteral"}
+                "DevEnumStringLiteral", "DevNonObjectForInputObject"}
 DynamicDevs == {"DevVarUsageUnchecked", "DevVarTypeIgnored", "DevOmittedVarSkipsArgValidation", "DevEnumStringLiteral",
                 "DevNonObjectForInputObject", "DevDynNoListCoercion", "DevDynNoFieldDefaults"}
 DevsOf(c) == IF c.flavour = "dynamic" THEN DynamicDevs ELSE StaticDevs
